@@ -163,6 +163,76 @@ Theorem C10_double_both_may_die : forall d oh ow dw dh, Inv d -> d_done d = fals
 Proof. exact double_inv. Qed.
 Print Assumptions C10_double_both_may_die.
 
+(* ---------------------------------------------------------------- a body that forks *)
+(* `launch_f v fsafe d fk o dth`: the body forks once (fk = Some ce: how the child leaves - CQuit = os._exit,
+   CExit c = sys.exit(c), CRaise = an exception) between its beginning and its end; the at-fork hook runs in the
+   CHILD, the job process keeps its handlers and its exit callback; fsafe = true: with fixes/C10-3.diff the
+   except clauses of TaskRunner.run re-raise in a process that is not the job.  wellbehaved fk: no fork, or a
+   child that leaves through os._exit (multiprocessing).                                                      *)
+Theorem C10_fork_none_is_plain : forall v fsafe d o dth, launch_f v fsafe d None o dth = launch v d o dth.
+Proof. exact launch_f_none. Qed.
+Print Assumptions C10_fork_none_is_plain.
+
+(* literal code refuted (1): the child leaves with sys.exit(0) - the success marker is created by the child
+   while the parent is in its body; SIGKILL of the parent then leaves a marker without a completed body, and
+   the next launch skips the body                                                                         *)
+Theorem C10_forked_child_exit0_refuted :
+  exists d o k,
+    Inv d /\ nth_error (trace_f Guarded false (Some (CExit 0)) o d) k = Some (BodyEnd true) /\
+    let d' := launch_f Guarded false d (Some (CExit 0)) o (Some (SKill, k, CTry)) in
+    d_done d' = true /\ d_completed d' = 0 /\ d_runs d' = 1 /\ ~ Truthful d' /\
+    d_runs (launch Guarded d' OOk None) = 1 /\ d_completed (launch Guarded d' OOk None) = 0.
+Proof. exact forked_child_exit0_refuted. Qed.
+Print Assumptions C10_forked_child_exit0_refuted.
+
+(* literal code refuted (2): the child leaves with sys.exit(3): it writes the failure marker and removes the
+   pid file while the parent runs on; the parent succeeds undisturbed: both markers                        *)
+Theorem C10_forked_child_failure_refuted :
+  exists d ce o,
+    Inv d /\ success o = true /\
+    let d' := launch_f Guarded false d (Some ce) o None in
+    d_done d' = true /\ d_failed d' = Some 3%Z /\ d_runs d' = 1 /\ d_completed d' = 1 /\
+    d_pid (die (run_effs (firstn 9 (trace_f Guarded false (Some ce) o d)) (boot d))) = false.
+Proof. exact forked_child_failure_refuted. Qed.
+Print Assumptions C10_forked_child_failure_refuted.
+
+(* repaired clauses (any child), or a child that leaves through os._exit (literal code too): whatever the
+   instant and the kind of death of the job process, before or after the fork                              *)
+Theorem C10_fork_kill_anywhere : forall v fsafe d fk o dth, Inv d -> (fsafe || wellbehaved fk)%bool = true ->
+  Truthful (launch_f v fsafe d fk o dth) /\
+  (d_done (launch_f v fsafe d fk o dth) = true ->
+     d_done d = true \/ (success o = true /\ d_completed (launch_f v fsafe d fk o dth) = S (d_completed d))).
+Proof. exact fork_kill_anywhere_truthful. Qed.
+Print Assumptions C10_fork_kill_anywhere.
+
+(* SIGTERM / SIGINT while the body runs, the next effect being the fork or the end of the body (i.e. before
+   or AFTER the fork): failure marker, no success marker, no pid file - the job process has kept its handlers *)
+Theorem C10_fork_term_in_body : forall v fsafe ce d o g c k,
+  (fsafe || wellbehaved (Some ce))%bool = true ->
+  d_done d = false -> term_signal g -> in_body_f v fsafe (Some ce) o d k ->
+  let d' := launch_f v fsafe d (Some ce) o (Some (g, k, c)) in
+  d_done d' = false /\ d_failed d' <> None /\ d_pid d' = false /\
+  (c = CTry -> d_failed d' = Some 1%Z).
+Proof. exact fork_term_in_body. Qed.
+Print Assumptions C10_fork_term_in_body.
+
+(* a job whose body forked and that ends by itself leaves no pid file and has released the lock (it has kept
+   its exit callback), ran the body exactly when there was no marker, and the marker tells its outcome      *)
+Theorem C10_fork_own_exit : forall v fsafe ce d o, v <> Prefix -> (fsafe || wellbehaved (Some ce))%bool = true ->
+  let d' := launch_f v fsafe d (Some ce) o None in
+  d_pid d' = false /\
+  lock (run_effs (effects_f v fsafe (Some ce) o None d) (boot d)) = false /\
+  d_runs d' = (if d_done d then d_runs d else S (d_runs d)) /\
+  d_done d' = (d_done d || success o)%bool.
+Proof. exact fork_own_exit. Qed.
+Print Assumptions C10_fork_own_exit.
+
+Theorem C10_fork_histories : forall v fsafe l d, Inv d ->
+  (forall x, In x l -> (fsafe || wellbehaved (fst (fst x)))%bool = true) ->
+  Truthful (history_f v fsafe d l).
+Proof. exact fork_histories. Qed.
+Print Assumptions C10_fork_histories.
+
 (* record of the defect of the pinned commit: the literal runner keeps the pid file after a success *)
 Theorem C10_pid_left_on_success_refuted :
   exists d o, Inv d /\ success o = true /\ d_pid (launch Prefix d o None) = true.
